@@ -1,9 +1,62 @@
 package main
 
-import "strconv"
+import (
+	"encoding/json"
+	"fmt"
+	"os"
+	"os/exec"
+	"path/filepath"
+	"strconv"
+)
 
 func strconvQuote(s string) string { return strconv.Quote(s) }
 
 func strconvUnquote(s string) (string, error) { return strconv.Unquote(s) }
 
-func thoroughExtras(repo, verif string, spec PropSpec) map[string]any { return nil }
+// thoroughExtras runs the self-validation corpus for the property (seeded mutants must be caught by
+// the tagged rule, benign variants must stay silent) and returns a summary for the evidence. A
+// failing self-test is a checker failure (exit 2), never a VIOLATION against /repo.
+func thoroughExtras(repo, verif string, spec PropSpec) map[string]any {
+	out := map[string]any{}
+	script := filepath.Join(verif, "selftest", "run.py")
+	if _, err := os.Stat(script); err != nil {
+		out["selftest"] = "not available"
+		return out
+	}
+	tmp, err := os.CreateTemp("", "bklselftest-*.json")
+	if err != nil {
+		out["selftest"] = err.Error()
+		return out
+	}
+	tmp.Close()
+	defer os.Remove(tmp.Name())
+	cmd := exec.Command("python3", script, "--prop", spec.ID, "--repo", repo, "--json", tmp.Name(), "--jobs", "16")
+	b, runErr := cmd.CombinedOutput()
+	var res []map[string]any
+	if data, err := os.ReadFile(tmp.Name()); err == nil {
+		_ = json.Unmarshal(data, &res)
+	}
+	counts := map[string]int{}
+	var failed []string
+	for _, r := range res {
+		st, _ := r["status"].(string)
+		counts[st]++
+		if st != "ok" && st != "skipped" {
+			failed = append(failed, fmt.Sprintf("%v: %s", r["id"], st))
+		}
+	}
+	out["selftest_cases"] = len(res)
+	out["selftest_counts"] = counts
+	if runErr != nil || len(failed) > 0 {
+		out["selftest_failed"] = failed
+		undecided("self-validation failed for %s: %v %v\n%s", spec.ID, failed, runErr, tail(string(b), 1500))
+	}
+	return out
+}
+
+func tail(s string, n int) string {
+	if len(s) <= n {
+		return s
+	}
+	return s[len(s)-n:]
+}
